@@ -779,14 +779,89 @@ Proof.
   rewrite Hph by exact H2. apply Hph. exact H1.
 Qed.
 
-(* and it is among the contexts reported bound *)
+(* once off the ledger, no later resync of the batch brings a context back *)
+Lemma flow_unbind_none tasks fails ns p tid nid :
+  on_ledger ns tid nid = None -> on_ledger (flow_unbind eps tasks fails ns p) tid nid = None.
+Proof.
+  intros Hn. unfold flow_unbind. case_bool_decide as Hin; [|exact Hn].
+  simpl. destruct (ns !! p.2) as [n|] eqn:E; [|exact Hn]. unfold on_ledger in *.
+  destruct (base.decide (p.2 = nid)) as [Heq|Hne].
+  - subst nid. rewrite E in Hn. rewrite lookup_insert, node_remove_tasks.
+    destruct (base.decide (p.1 = tid)) as [->|Ht]; [apply lookup_delete|rewrite lookup_delete_ne by exact Ht; exact Hn].
+  - rewrite lookup_insert_ne by exact Hne. exact Hn.
+Qed.
+
+Lemma flow_unbind_drops tasks fails ns tid nid :
+  tid ∈ fails -> on_ledger (flow_unbind eps tasks fails ns (tid, nid)) tid nid = None.
+Proof.
+  intros Hin. unfold flow_unbind. rewrite bool_decide_eq_true_2 by exact Hin. simpl. unfold on_ledger.
+  destruct (ns !! nid) as [n|] eqn:E; [|rewrite E; reflexivity].
+  rewrite lookup_insert, node_remove_tasks. apply lookup_delete.
+Qed.
+
+Lemma flow_phase_none tasks fails l tid nid : forall ns,
+  on_ledger ns tid nid = None -> on_ledger (fold_left (flow_unbind eps tasks fails) l ns) tid nid = None.
+Proof. induction l as [|p l IH]; intros ns Hn; [exact Hn|]. simpl. apply IH, flow_unbind_none, Hn. Qed.
+
+Lemma flow_phase_drops tasks fails l tid nid : forall ns,
+  (tid, nid) ∈ l -> tid ∈ fails -> on_ledger (fold_left (flow_unbind eps tasks fails) l ns) tid nid = None.
+Proof.
+  induction l as [|p l IH]; intros ns Hin Hf; [inversion Hin|]. simpl.
+  apply elem_of_cons in Hin as [<-|Hin]; [apply flow_phase_none, flow_unbind_drops, Hf|apply IH; assumption].
+Qed.
+
+Lemma flow_pass_elem fails pending (p : positive * positive) :
+  p ∈ pending -> p.1 ∉ fails -> p ∈ flow_pass fails pending.
+Proof.
+  intros Hin Hf. unfold flow_pass. apply elem_of_list_In, filter_In. split; [apply elem_of_list_In; exact Hin|].
+  rewrite bool_decide_eq_false_2 by exact Hf. reflexivity.
+Qed.
+
+(* the other direction: a context of the batch that a failure names -- its PreBind failed, or it was
+   handed to the binder and its Binding is reported failed -- is off its node's ledger afterwards *)
+Theorem flow_batch_drops_named tasks pf bf ns pending tid nid :
+  (tid, nid) ∈ pending -> tid ∈ pf \/ tid ∈ bf ->
+  on_ledger (fst (flow_batch eps tasks pf bf ns pending)) tid nid = None.
+Proof.
+  intros Hin Hf. unfold flow_batch. simpl.
+  destruct (base.decide (tid ∈ pf)) as [Hp|Hp].
+  - apply flow_phase_none, flow_phase_drops; assumption.
+  - destruct Hf as [Hf|Hf]; [contradiction|].
+    apply flow_phase_drops; [|exact Hf]. apply (flow_pass_elem pf pending (tid, nid) Hin Hp).
+Qed.
+
+(* and a context that no failure names is among the contexts reported bound *)
 Lemma flow_batch_reports_bound tasks pf bf ns pending tid nid :
   (tid, nid) ∈ pending -> tid ∉ pf -> tid ∉ bf -> (tid, nid) ∈ snd (flow_batch eps tasks pf bf ns pending).
 Proof.
-  intros Hin H1 H2. unfold flow_batch, flow_pass. simpl.
-  apply elem_of_list_In. apply filter_In. split.
-  - apply filter_In. split; [apply elem_of_list_In; exact Hin|]. simpl. rewrite bool_decide_eq_false_2 by exact H1. reflexivity.
-  - simpl. rewrite bool_decide_eq_false_2 by exact H2. reflexivity.
+  intros Hin H1 H2. unfold flow_batch. simpl.
+  apply (flow_pass_elem bf _ (tid, nid)); [|exact H2]. apply (flow_pass_elem pf _ (tid, nid)); assumption.
+Qed.
+
+(* ---- law 117: per batch, the fault script and per context (task, node, on the ledger before,
+   after): after = before, unless a failure names the task ---- *)
+Definition law_batch (x : list positive * list positive * list (positive * positive * bool * bool)) : bool :=
+  let '(pf, bf, cs) := x in
+  forallb (fun c => let '(t, _, before, after) := c in
+             Bool.eqb after (before && negb (bool_decide (t ∈ pf)) && negb (bool_decide (t ∈ bf)))) cs.
+
+Definition held_b (ns : gmap positive node) (p : positive * positive) : bool :=
+  match on_ledger ns p.1 p.2 with Some _ => true | None => false end.
+
+(* the law holds of the model's batch: what law 117 asks of the real cache is what flow_batch does *)
+Theorem law_batch_sound tasks pf bf ns pending :
+  law_batch (pf, bf, map (fun p => (p.1, p.2, held_b ns p, held_b (fst (flow_batch eps tasks pf bf ns pending)) p)) pending) = true.
+Proof.
+  unfold law_batch. apply forallb_forall. intros c Hc. apply in_map_iff in Hc as ([t n] & <- & Hin).
+  apply elem_of_list_In in Hin. unfold held_b. cbn [fst snd].
+  destruct (base.decide (t ∈ pf)) as [Hp|Hp].
+  - rewrite (flow_batch_drops_named tasks pf bf ns pending t n Hin (or_introl Hp)).
+    rewrite (bool_decide_eq_true_2 _ Hp). cbn. rewrite andb_false_r. reflexivity.
+  - destruct (base.decide (t ∈ bf)) as [Hb|Hb].
+    + rewrite (flow_batch_drops_named tasks pf bf ns pending t n Hin (or_intror Hb)).
+      rewrite (bool_decide_eq_true_2 _ Hb). cbn. rewrite andb_false_r. reflexivity.
+    + rewrite (flow_batch_keeps_bound tasks pf bf ns pending t n Hp Hb).
+      rewrite (bool_decide_eq_false_2 _ Hp), (bool_decide_eq_false_2 _ Hb). cbn. rewrite !andb_true_r. apply eqb_reflx.
 Qed.
 
 End Events.
